@@ -2778,7 +2778,12 @@ func (s *Server) serveConnCounted(c net.Conn, countConcurrency bool) error {
 			ctx.Request.bodyStream = nil
 		}
 
-		idleConnTime.Store(ctx.time.Unix())
+		// A response that is still buffered (it is only flushed when the read
+		// buffer is empty) has not been sent yet: the connection is not idle and
+		// Shutdown must not close it before that response is flushed.
+		if bw == nil || bw.Buffered() == 0 {
+			idleConnTime.Store(ctx.time.Unix())
+		}
 		s.setState(c, StateIdle)
 		ctx.Request.Reset()
 		ctx.Response.Reset()
